@@ -343,6 +343,16 @@ for _k, _v in {
     "C16": " Also: parse_expr returns only type-checked trees (typed-tree), the invariant the counted typing unwraps rest on.",
 }.items():
     ADDED[_k] = (ADDED.get(_k, "") + _v).strip()
+# round 20 and the observations triaged after it (session 7)
+for _k, _v in {
+    "C02": " Also: the static type of a map lookup against what a missing key answers (map-lookup: known finding).",
+    "C04": " Also: compile writes the file it was asked for on every successful return (output-written).",
+    "C06": " Also: the right operand of && / || is folded only when the left one does not decide (short-circuit; the fallback of `or`: known finding).",
+    "C07": " Also: which supply cancels which dependency, by evaluation of eq_allow_callbacks (supply-match); every written temporary register was reserved (reserved-register).",
+    "C08": " Also: the receiver of a method call waits in a reserved register (receiver-register, shared with C07).",
+    "C20": " Also: the deleted path is not a text rendering of the entry's path (same-entry: Path::display / to_string_lossy).",
+}.items():
+    ADDED[_k] = (ADDED.get(_k, "") + _v).strip()
 # round 19 and the observations triaged after it (session 7)
 for _k, _v in {
     "C01": " Also: constant conditions are folded only through the compared operator tables (fold-scope, shared with C06); every from loop writes its counter after both bounds (skeleton).",
